@@ -2,3 +2,13 @@ fn smoke_chunked() {
     let d = hex_digit(11);
     assert(d == 98u8);
 }
+// vacuity canary: exercise the assumed reader / writer contracts, then claim false -- must FAIL
+fn canary_io<R: AsyncRead, W: AsyncWrite>(mut r: R, mut w: W) {
+    broadcast use reader_resolved, writer_resolved, seq_events;
+    let mut b = [0u8; 16];
+    let x = r.read(&mut b);
+    let y = w.write_all(&b);
+    let z = w.flush();
+    proof { lemma_nibbles(); r.within_limit(); }
+    assert(false);
+}
